@@ -8,6 +8,8 @@ import JumanjiModel.Env.Sudoku.Lemmas
 import JumanjiModel.Env.Sudoku.Bounds
 import JumanjiModel.Env.Sudoku.DBLemmas
 import JumanjiModel.Gen.SudokuDB
+import JumanjiModel.Env.Sudoku.RunLemmas
+import JumanjiModel.Env.SpecTieSSM
 open Jm Jx Sudoku
 
 namespace Props.C04
@@ -27,10 +29,18 @@ theorem sudoku_mask_eq_legalTable (b : Grid Int) (hs : Grid.shaped b 9 9 = true)
 theorem sudoku_cached_mask (s : State) (hs : Grid.shaped s.board 9 9 = true) (r c d : Nat) (hr : r < 9)
     (hc : c < 9) : CachedOK (step s r c d).1 := Sudoku.step_cached s hs r c d hr hc
 
-/-- `step` (which reads the cached mask) treats an action as invalid iff the rules forbid it -/
-theorem sudoku_step_agrees (s : State) (hcache : CachedOK s) (r c d : Nat) (hr : r < 9) (hc : c < 9)
-    (hd : d < 9) : (!(maskAt s.mask r c d)) = true ↔ ¬ legal s.board r c d :=
-  Sudoku.invalid_iff s hcache r c d hr hc hd
+/-- `step` (which reads the cached mask) agrees with the rules about validity (audit r2 #6: stated about `step`): an
+in-spec action the rules forbid ends the episode, and one they allow ends it iff no legal move is left on the new board -/
+theorem sudoku_step_agrees (s : State) (hs : Grid.shaped s.board 9 9 = true) (hcache : CachedOK s) (r c d : Nat)
+    (hr : r < 9) (hc : c < 9) (hd : d < 9) :
+    (¬ legal s.board r c d → (step s r c d).2.stepType = .last) ∧
+    (legal s.board r c d →
+      ((step s r c d).2.stepType = .last ↔ ¬ ∃ r' c' d', legal (step s r c d).1.board r' c' d')) :=
+  Sudoku.step_agrees_step s hs hcache r c d hr hc hd
+
+-- on the sample puzzle: writing 1 at (0,0) is legal and the episode goes on; writing 7 there (7 is in row 0) ends it
+example : (step ⟨sampleBoard, maskOf sampleBoard⟩ 0 0 1).2.stepType = .mid ∧
+    (step ⟨sampleBoard, maskOf sampleBoard⟩ 0 0 7).2.stepType = .last := by decide +kernel
 
 example : legal sampleBoard 0 0 1 ∧ ¬ legal sampleBoard 0 0 7 ∧ ¬ legal sampleBoard 0 3 1 := by decide +kernel
 example : CachedOK ⟨sampleBoard, maskOf sampleBoard⟩ := by decide +kernel
@@ -63,9 +73,18 @@ theorem sudoku_step_feasible (s : State) (hf : Feasible s.board) (r c d : Nat) (
   rw [Sudoku.step_state s hf.1 r c d hl.1 hl.2.1]
   exact Sudoku.step_feasible s.board hf r c d hl
 
-/-- an episode that ends with a full board (completion) holds a complete feasible solution -/
-theorem sudoku_complete_is_solution (b : Grid Int) (hf : Feasible b) (hfull : Full b) : IsSolution b :=
-  ⟨hf, hfull⟩
+/-- completion through `step` (audit r2 #1): a legal move from a feasible board after which the board is full yields
+a complete feasible solution, is rewarded 1 and ends the episode -/
+theorem sudoku_complete_is_solution (s : State) (hf : Feasible s.board) (r c d : Nat) (hl : legal s.board r c d)
+    (hfull : Full (step s r c d).1.board) :
+    IsSolution (step s r c d).1.board ∧ (step s r c d).2.reward = [1] ∧ (step s r c d).2.stepType = .last :=
+  Sudoku.complete_is_solution s hf r c d hl hfull
+
+/-- the hypotheses are satisfiable: a solved grid with cell (0,0) emptied, the missing digit 0 written back -/
+example :
+    let b : Grid Int := [[-1,1,2,3,4,5,6,7,8],[3,4,5,6,7,8,0,1,2],[6,7,8,0,1,2,3,4,5],[1,2,3,4,5,6,7,8,0],
+      [4,5,6,7,8,0,1,2,3],[7,8,0,1,2,3,4,5,6],[2,3,4,5,6,7,8,0,1],[5,6,7,8,0,1,2,3,4],[8,0,1,2,3,4,5,6,7]]
+    Feasible b ∧ legal b 0 0 0 ∧ Full (step ⟨b, maskOf b⟩ 0 0 0).1.board := by decide +kernel
 
 example : Feasible sampleBoard := by decide +kernel
 end Props.C06
@@ -171,6 +190,40 @@ theorem sudoku_progress (s : State) (hs : Grid.shaped s.board 9 9 = true) (hcach
     (r c d : Nat) (hr : r < 9) (hc : c < 9) (hd : d < 9) (hn : (step s r c d).2.stepType ≠ .last) :
     emptyCells (step s r c d).1.board + 1 = emptyCells s.board :=
   Sudoku.progress s hs hcache r c d hr hc hd hn
+
+/-! #### episode level (audit r2 #11): `run s as` = the (successor state, timestep) pairs of playing the in-spec actions
+`as` from `s` with the L1 `step`; `NoLastBefore … k` = none of the transitions 0..k-1 is LAST. -/
+
+/-- structural horizon: from any state with a 9×9 board and a correctly cached mask (every reset state, C10/C12), if the
+first `k` transitions of a play are not LAST then `k ≤ emptyCells` — an episode (`k` non-LAST steps, then one LAST) has at
+most `emptyCells + 1` steps, and at most `emptyCells` steps as soon as it has more than one; exactly `k` cells were filled;
+`CachedOK` and the shape are carried along -/
+theorem sudoku_run_horizon (s : State) (hs : Grid.shaped s.board 9 9 = true) (hcache : CachedOK s) (as : List Action)
+    (has : ∀ a ∈ as, InSpec a) (k : Nat) (hk : k ≤ as.length)
+    (hno : EpRun.NoLastBefore stepA (·.stepType = .last) s as k) :
+    k ≤ emptyCells s.board ∧ (1 ≤ k → k + 1 ≤ emptyCells s.board) ∧
+    emptyCells (EpRun.after stepA s (as.take k)).board + k = emptyCells s.board ∧
+    Grid.shaped (EpRun.after stepA s (as.take k)).board 9 9 = true ∧ CachedOK (EpRun.after stepA s (as.take k)) :=
+  Sudoku.run_horizon s hs hcache as has k hk hno
+
+/-- in the audit's words: an action list all of whose transitions but the final one are not LAST (one episode) has
+`as.length ≤ emptyCells s.board + 1` -/
+theorem sudoku_episode_length (s : State) (hs : Grid.shaped s.board 9 9 = true) (hcache : CachedOK s)
+    (as : List Action) (has : ∀ a ∈ as, InSpec a)
+    (hep : EpRun.NoLastBefore stepA (·.stepType = .last) s as (as.length - 1)) :
+    as.length ≤ emptyCells s.board + 1 := by
+  have := (Sudoku.run_horizon s hs hcache as has (as.length - 1) (by omega) hep).1
+  omega
+
+/-- there is a LAST at or before step `emptyCells + 1` of every longer play -/
+theorem sudoku_run_exists_last (s : State) (hs : Grid.shaped s.board 9 9 = true) (hcache : CachedOK s)
+    (as : List Action) (has : ∀ a ∈ as, InSpec a) (hlen : emptyCells s.board + 1 ≤ as.length) :
+    ∃ (k : Nat) (p : State × TimeStep Obs), k ≤ emptyCells s.board ∧ (run s as)[k]? = some p ∧
+      p.2.stepType = .last := Sudoku.run_exists_last s hs hcache as has hlen
+
+-- sample puzzle: two legal moves are MID, the third (digit 7 into row 0, which has a 7) is LAST
+example : ((run ⟨sampleBoard, maskOf sampleBoard⟩ [(0, 0, 1), (0, 1, 2), (0, 2, 7)]).map
+    (fun p => decide (p.2.stepType = .last))) = [false, false, true] := by decide +kernel
 end Props.C11
 
 namespace Props.C12
@@ -182,6 +235,15 @@ theorem sudoku_obs_faithful (s : State) (hs : Grid.shaped s.board 9 9 = true) (r
 theorem sudoku_obs_copied (s : State) (r c d : Int) :
     (step s r c d).2.obs = { board := (step s r c d).1.board, mask := (step s r c d).1.mask } :=
   Sudoku.obs_copied s r c d
+
+/-- the observation returned by `reset` (any 9×9 generator board `b`, `get_action_mask(b)`, `restart`) shows the board
+and the table of its legal moves; the timestep is FIRST and the cached mask is correct (`CachedOK`, the hypothesis of
+the step theorems) -/
+theorem sudoku_reset_obs_faithful (b : Grid Int) (hs : Grid.shaped b 9 9 = true) :
+    (Sudoku.reset b).2.obs = observe (Sudoku.reset b).1 ∧ (Sudoku.reset b).2.stepType = .first ∧
+      CachedOK (Sudoku.reset b).1 := Sudoku.reset_obs_faithful b hs
+
+example : Grid.shaped sampleBoard 9 9 = true := by decide
 end Props.C12
 
 namespace Props.C01
@@ -201,4 +263,29 @@ theorem sudoku_cellsInRange_invariant :
     (∀ b, Feasible b → CellsInRange b) ∧
     (∀ (s : State) (r c d : Int), CellsInRange s.board → (-1 ≤ d ∧ d ≤ 8) → CellsInRange (step s r c d).1.board) :=
   ⟨Sudoku.cellsInRange_of_feasible, Sudoku.step_cellsInRange⟩
+
+/-- shapes (audit r2 #15): the reset observation of a 9×9 board has `board` 9×9 and `action_mask` 9×9×9 -/
+theorem sudoku_reset_obs_shaped (b : Grid Int) (hs : Grid.shaped b 9 9 = true) :
+    ObsShaped (Sudoku.reset b).2.obs := Sudoku.reset_obs_shaped b hs
+
+/-- … and so has the observation of every step from a 9×9 board, for ANY integer action (legal or not, in range or
+not); the successor board is 9×9 again, so this holds along every trajectory -/
+theorem sudoku_step_obs_shaped (s : State) (hs : Grid.shaped s.board 9 9 = true) (r c d : Int) :
+    ObsShaped (step s r c d).2.obs ∧ Grid.shaped (step s r c d).1.board 9 9 = true :=
+  ⟨Sudoku.step_obs_shaped s hs r c d, Grid.l_shaped_setWD hs d r c⟩
+
+/-- values and shapes together -/
+theorem sudoku_step_obs_conforms (s : State) (r c d : Int) (hs : Grid.shaped s.board 9 9 = true)
+    (h : CellsInRange s.board) (hd : -1 ≤ d ∧ d ≤ 8) :
+    ObsInBounds obsBounds (obsLeaves (step s r c d).2.obs) ∧ ObsShaped (step s r c d).2.obs :=
+  ⟨Sudoku.step_obs_in_bounds s r c d h hd, Sudoku.step_obs_shaped s hs r c d⟩
+
+/-- the proved interval and shape of `board` lie inside the DECLARED spec literal generated from the real
+`observation_spec` (`Gen/Specs.lean`, configuration `sudoku-default`: `BoundedArray((9,9), int32, -1, 9)`); the
+729-entry `action_mask` leaf is not part of the generated table (too large for kernel evaluation) -/
+theorem sudoku_bounds_within_declared_spec :
+    SpecTieSSM.tie "sudoku-default" obsBounds obsShapes = true ∧
+    (SpecTieSSM.obsLeavesOf "sudoku-default").map (·.1) = ["board"] := by decide +kernel
+example : SpecTieSSM.tie "sudoku-default" [("board", iv (-2) 8), ("action_mask", iv 0 1)] obsShapes = false ∧
+    SpecTieSSM.tie "sudoku-default" obsBounds [("board", [9, 8])] = false := by decide +kernel
 end Props.C01
